@@ -264,6 +264,26 @@ func streamC13(env *runEnv) {
 		emitMut(val + "A")
 		g.stop()
 	}
+	// a provider URL that is not the issuer the provider's discovery document names (trailing slash, alias
+	// host): the gateway either refuses to start or, if it serves, still verifies the issuer of every ID token
+	for vi, variant := range []string{idp.srv.URL + "/", strings.Replace(idp.srv.URL, "127.0.0.1", "localhost", 1)} {
+		dir := filepath.Join(env.workdir, fmt.Sprintf("oidc-alias-%d", vi))
+		c := gwConfig{authSet: true, auth: []string{"openid"}, tlsDisable: true, hosts: []string{"10.9.8.7:3389"}, providerURL: variant, clientID: idp.clientID}
+		yaml, ev := c.render("file")
+		g, ok := startGateway(dir, yaml, ev, false)
+		if !ok {
+			env.count("c13.provider-url-not-the-issuer.refused-at-start")
+			g.stop()
+			continue
+		}
+		env.count("c13.provider-url-not-the-issuer.serving")
+		for k, f := range []string{"wrongiss", "badsig", "wrongaud", "expired"} {
+			spec, obs := runOidcHistory(g, idp, []oidcOp{{kind: "connect", sess: 1}, {kind: "callback", sess: 1, stateRef: 1, cb: f, user: "mallory"}, {kind: "connect", sess: 1}},
+				fmt.Sprintf("alias%d-%d-%d", vi, env.seed, k))
+			env.emit("oidc", "cookie", spec, obs)
+		}
+		g.stop()
+	}
 	// identity contents restored unchanged (gob round trip through Marshal/Unmarshal)
 	ni := 200
 	if env.thorough() {
